@@ -43,7 +43,7 @@ extern "C" std::wstring c02_wset_text(fcppt::container::detail::output<std::unor
 namespace c02
 {
 using u64 = std::uint64_t;
-constexpr unsigned max_len = 6;
+constexpr unsigned max_len = 10;
 
 // ------------------------------------------------------------------ the input: n symbolic bytes behind the PUBLIC
 // abstract stream interface.  Positions carry no location, so detail::expected never formats a location.
@@ -684,6 +684,8 @@ inline refres run_node(refctx &c, node const &nd, int const skip)
 
 // ------------------------------------------------------------------ the comparison, shared by every grammar
 template <typename Ch, typename Parser, typename Skipper>
+void check_input(Parser const &parser, Skipper const &skipper, node const *g, int root, int skiproot, basic_input<Ch> const &in);
+template <typename Ch, typename Parser, typename Skipper>
 void check_ch(
     Parser const &parser, Skipper const &skipper, node const *const g, int const root, int const skiproot, unsigned const n,
     void (*const precondition)(basic_input<Ch> const &) = nullptr)
@@ -692,6 +694,13 @@ void check_ch(
   fresh_input(in, n);
   if (precondition != nullptr)
     precondition(in); // restricts the input SHAPE of a few thorough harnesses (documented there)
+  check_input<Ch>(parser, skipper, g, root, skiproot, in);
+}
+// the comparison proper, on an input prepared by the caller (in.b, in.code and in.n filled consistently)
+template <typename Ch, typename Parser, typename Skipper>
+void check_input(Parser const &parser, Skipper const &skipper, node const *const g, int const root, int const skiproot, basic_input<Ch> const &in)
+{
+  unsigned const n = in.n;
   basic_arr_stream<Ch> s{in.b, n};
   auto const r{fcppt::parse::phrase_parse(parser, s, skipper)};
 
